@@ -1084,4 +1084,97 @@ theorem simF_call_builtin {k : Nat} (hA : FClaimA (k + 1)) {h name : String} (hn
   | brk l rs1 => rw [h1] at hprep; exact hprep.elim
   | cont l rs1 => rw [h1] at hprep; exact hprep.elim
 
+/-- an array in callee position: the operands are evaluated, then the call fails -/
+theorem simF_call_arr {k : Nat} (hA : FClaimA (k + 1)) {h : String} {args : List Expr}
+    (hargs : FaList args = true) {m : Nat → Nat} {s : St} {rs : Ref.St} {env : Nat} {pre post : List Instr} {i r : Nat}
+    (hrel : RelF m s rs env) (hseg : Seg s pre [.callExpr (.sym h) args] post)
+    (hl : lexLookup s h = some (i, .arr r)) :
+    SimF [.callExpr (.sym h) args] m s rs env (refCall k (.arr r) args env rs) := by
+  rw [refCall_arr]
+  have hprep := hA args hargs none (fun f hf => by cases hf) 0 m s rs env hrel
+  have hexec : ∀ F, (exec (F + 3) (.callExpr (.sym h) args)).run s
+      = guardedRun s.data.length ((prepareArgs (F + 1) none 0 args >>= fun _ => (err : M Unit) : M Unit).run s) :=
+    fun F => by rw [exec_callExpr_sym F h args s i _ hl, run_callResolved_arr]
+  cases h1 : Ref.evalArgs (k + 1) args 0 (fun _ => false) env rs with
+  | ok vs' rs1 =>
+    rw [h1] at hprep
+    obtain ⟨M, s1, m1, vs, hM, hd1, hp1, hvs, rel1, hm1, ext1, fr1, hclvs⟩ := hprep
+    simp only
+    refine FailsX.step hseg.head (M + 2) (fun f hf => ?_)
+    obtain ⟨F, rfl⟩ : ∃ F, f = F + 2 := ⟨f - 2, by omega⟩
+    exact ⟨{ s1 with data := truncate s1.data s.data.length },
+      by rw [hexec F, run_bind, hM (F + 1) (by omega)]; rfl, rel1.trace⟩
+  | err rs1 =>
+    rw [h1] at hprep
+    obtain ⟨M, hM⟩ := hprep
+    simp only
+    refine FailsX.step hseg.head (M + 2) (fun f hf => ?_)
+    obtain ⟨F, rfl⟩ : ∃ F, f = F + 2 := ⟨f - 2, by omega⟩
+    obtain ⟨se, hse, htr⟩ := hM (F + 1) (by omega)
+    exact ⟨{ se with data := truncate se.data s.data.length }, by rw [hexec F, run_bind, hse]; rfl, htr⟩
+  | timeout => trivial
+  | brk l rs1 => rw [h1] at hprep; exact hprep.elim
+  | cont l rs1 => rw [h1] at hprep; exact hprep.elim
+
+/-- the callee symbol denotes something that is no function: the value itself without operands,
+an error with operands -/
+theorem simF_call_other {k : Nat} {h : String} {args : List Expr} {m : Nat → Nat} {s : St} {rs : Ref.St} {env : Nat}
+    {pre post : List Instr} {i : Nat} {fv : Val} (hrel : RelF m s rs env)
+    (hseg : Seg s pre [.callExpr (.sym h) args] post) (hl : lexLookup s h = some (i, fv)) (hv : VOk m s rs fv)
+    (h1 : ∀ id, fv ≠ .fn id) (h2 : ∀ n, fv ≠ .builtin n) (h3 : ∀ r, fv ≠ .arr r) :
+    SimF [.callExpr (.sym h) args] m s rs env (refCall k (trf m fv) args env rs) := by
+  have h1' : ∀ id, trf m fv ≠ .fn id := fun id e => by cases fv <;> simp_all [tr]
+  have h2' : ∀ n, trf m fv ≠ .builtin n := fun n e => by cases fv <;> simp_all [tr]
+  have h3' : ∀ r, trf m fv ≠ .arr r := fun r e => by cases fv <;> simp_all [tr]
+  rw [refCall_other k _ args env rs h1' h2' h3']
+  have hexec : ∀ F, (exec (F + 3) (.callExpr (.sym h) args)).run s
+      = if args.isEmpty then (.ok (), s.jmp (s.pc + 1) (some fv :: s.data)) else (.error .err, s) :=
+    fun F => by rw [exec_callExpr_sym F h args s i _ hl, run_callResolved_other _ _ _ _ h1 h2 h3]
+  by_cases he : args.isEmpty = true
+  · simp only [he, if_true] at hexec ⊢
+    refine ⟨s.jmp (s.pc + 1) (some fv :: s.data), m, fv, ReachX.step hseg.head 2 (fun f hf => ?_), ⟨rfl, by simp, rfl⟩,
+      rfl, hrel.jmp _ _, MExt.refl s m, RExt.refl rs, FrameF.jmp _ _ _,
+      VOk.ext hv (Frame.jmp _ _ _) (RExt.refl rs) (MExt.refl s m)⟩
+    obtain ⟨F, rfl⟩ : ∃ F, f = F + 2 := ⟨f - 2, by omega⟩
+    exact hexec F
+  · simp only [he, Bool.false_eq_true, if_false] at hexec ⊢
+    refine FailsX.step hseg.head 2 (fun f hf => ?_)
+    obtain ⟨F, rfl⟩ : ∃ F, f = F + 2 := ⟨f - 2, by omega⟩
+    exact ⟨s, hexec F, hrel.trace⟩
+
+/-- **A call by name**: callee by lookup; a closure object, a first-order builtin, or something
+that cannot be called. -/
+theorem simF_call {k : Nat} (hA : FClaimA (k + 1)) (hU : FClaimU (k + 1)) {h : String} (hh : okSym h = true)
+    {args : List Expr} (hargs : FaList args = true) {m : Nat → Nat} {s : St} {rs : Ref.St} {env : Nat}
+    {pre post : List Instr} (hrel : RelF m s rs env) (hseg : Seg s pre [.callExpr (.sym h) args] post) :
+    SimF [.callExpr (.sym h) args] m s rs env (Ref.eval (k + 2) (.call (.sym h) args) env rs) := by
+  rw [ref_eval_call_sym]
+  have hlook := hrel.lexLookup h
+  cases hl : lexLookup s h with
+  | none =>
+    rw [hl] at hlook
+    rw [← hlook]
+    simp only [Option.map_none]
+    refine FailsX.step hseg.head 1 (fun f hf => ?_)
+    obtain ⟨F, rfl⟩ : ∃ F, f = F + 1 := ⟨f - 1, by omega⟩
+    exact ⟨s, exec_callExpr_sym_none F h args s hl, hrel.trace⟩
+  | some r =>
+    obtain ⟨i, fv⟩ := r
+    rw [hl] at hlook
+    rw [← hlook]
+    simp only [Option.map_some, trp2]
+    have hv : VOk m s rs fv := hrel.vok i h fv hh (lexLookup_sound hl)
+    cases fv with
+    | fn vid => exact simF_call_fn hA hU hargs hrel hseg hl hv.fn
+    | builtin name => exact simF_call_builtin hA hv.builtin hargs hrel hseg hl
+    | arr r => exact simF_call_arr hA hargs hrel hseg hl
+    | nil => exact simF_call_other hrel hseg hl hv (fun _ e => by cases e) (fun _ e => by cases e) (fun _ e => by cases e)
+    | bool b => exact simF_call_other hrel hseg hl hv (fun _ e => by cases e) (fun _ e => by cases e) (fun _ e => by cases e)
+    | int v => exact simF_call_other hrel hseg hl hv (fun _ e => by cases e) (fun _ e => by cases e) (fun _ e => by cases e)
+    | str v => exact simF_call_other hrel hseg hl hv (fun _ e => by cases e) (fun _ e => by cases e) (fun _ e => by cases e)
+    | pair a b => exact simF_call_other hrel hseg hl hv (fun _ e => by cases e) (fun _ e => by cases e) (fun _ e => by cases e)
+    | lazy v => exact simF_call_other hrel hseg hl hv (fun _ e => by cases e) (fun _ e => by cases e) (fun _ e => by cases e)
+    | mark v => exact simF_call_other hrel hseg hl hv (fun _ e => by cases e) (fun _ e => by cases e) (fun _ e => by cases e)
+    | sym v => exact simF_call_other hrel hseg hl hv (fun _ e => by cases e) (fun _ e => by cases e) (fun _ e => by cases e)
+
 end ZygoVerif.Sim
